@@ -118,20 +118,20 @@ def NoInstanceExpr (text : Str) : Prop :=
     whatever else it contains (`<output value="x"/>` typed by the author included) -/
 theorem insert_no_ref (refs : List (Str × Str)) (s : Str) (h : hasDollarBrace s = false) (hi : NoInstanceExpr s) :
     insertOutputValues refs s = .ok (s, false) := by
-  unfold insertOutputValues
+  unfold insertOutputValues insertOutputValuesWith
   by_cases hd : s = ['-']
   · simp [hd]
   · have hsub : subOutputs refs ((escText s).length + 1) (escText s) = some (escText s) := by
       have := SubTo.text (SubTo.nil refs) (by simp) s h
       simp only [List.append_nil] at this
       exact this _ (by omega)
-    simp only [hd, if_false, replaceWithOutput_noInstance refs (escText s) hi, finishInsert]
+    simp only [hd, if_false, show replaceWithOutputWith Lexer.activeRules refs (escText s) = .ok (escText s) from replaceWithOutput_noInstance refs (escText s) hi, finishInsert]
     split <;> simp_all
 
 /-- … so the mixed channel is the plain text channel for such cells, and `text_channel` applies -/
 theorem mixed_no_ref (refs : List (Str × Str)) (tag s : Str) (h : hasDollarBrace s = false) (hi : NoInstanceExpr s) :
     mixedChannel refs tag s = .ok (nodeText tag s) := by
-  simp [mixedChannel, insert_no_ref refs s h hi]
+  simp [mixedChannel_unfold, insert_no_ref refs s h hi]
 
 theorem escText_no_lt (s : Str) : '<' ∉ escText s := by
   induction s with
@@ -249,8 +249,8 @@ theorem insert_refs_shape (refs : List (Str × Str)) (c : Cell) (items : List (S
       simp
     rw [heq] at hmem
     exact escText_no_lt _ hmem
-  unfold insertOutputValues
-  simp only [hne, if_false, replaceWithOutput_noInstance refs (escText c.text) hi, finishInsert, hbrace, if_true]
+  unfold insertOutputValues insertOutputValuesWith
+  simp only [hne, if_false, show replaceWithOutputWith Lexer.activeRules refs (escText c.text) = .ok (escText c.text) from replaceWithOutput_noInstance refs (escText c.text) hi, finishInsert, hbrace, if_true]
   rw [hsub']
   simp [hneq]
 
@@ -305,7 +305,7 @@ theorem mixed_channel_total (refs : List (Str × Str)) (tag : Str) (c : Cell) (i
       if textsValid c.head items then .ok (.elem tag [] (cellKids true c.head items)) else .pyxformError := by
   have hv : validChars (escText c.head ++ itemsMarkup items) = textsValid c.head items := by
     rw [validChars_append, validChars_escText, validChars_itemsMarkup items hc.vals, textsValid]
-  simp only [mixedChannel, insert_refs_shape refs c items hc hi, hv]
+  simp only [mixedChannel_unfold, insert_refs_shape refs c items hc hi, hv]
   cases ht : textsValid c.head items with
   | false => simp
   | true =>
